@@ -391,3 +391,53 @@ Proof.
   - destruct (fz_apply_fn_bridge fin f body l Hwf Hl) as [b1 [H1 [H2 H3]]]. rewrite H1. simpl.
     destruct (IH b1 _ H2 H3) as [b' [H4 [H5 H6]]]. exists b'; auto.
 Qed.
+
+(* ---------- "requires the finalizer" does not depend on the order of registration, and no handler can veto ---------- *)
+From Coq Require Import Sorting.Permutation.
+
+Lemma fz_existsb_perm : forall (A : Type) (f : A -> bool) l l', Permutation l l' -> existsb f l = existsb f l'.
+Proof.
+  intros A f l l' H. induction H; simpl; auto.
+  - rewrite IHPermutation; reflexivity.
+  - destruct (f x), (f y); reflexivity.
+  - congruence.
+Qed.
+
+Lemma fz_existsb_incl : forall (A : Type) (f : A -> bool) l l', incl l l' -> existsb f l = true -> existsb f l' = true.
+Proof.
+  intros A f l l' Hi H. apply existsb_exists in H. destruct H as [x [Hin Hx]]. apply existsb_exists. exists x. split; auto.
+Qed.
+
+Definition fz_with_handlers (a : fz_atoms) (sp : option (list fz_sh)) (ch : option (list fz_ch)) : fz_atoms :=
+  {| a_spawn := sp; a_chg := ch; a_blocked := a_blocked a; a_ongoing := a_ongoing a; a_deleted := a_deleted a;
+     a_patch0_empty := a_patch0_empty a; a_low_empty := a_low_empty a; a_ctime := a_ctime a; a_timed_out := a_timed_out a;
+     a_sdelays := a_sdelays a; a_cdelays := a_cdelays a |}.
+
+(* the whole decision of a pass is the same for every order in which the handlers were registered *)
+Lemma fz_decide_order_independent : forall a sp sp' ch ch', Permutation sp sp' -> Permutation ch ch' ->
+  fz_decide (fz_with_handlers a (Some sp) (Some ch)) = fz_decide (fz_with_handlers a (Some sp') (Some ch')).
+Proof.
+  intros a sp sp' ch ch' Hs Hc. unfold fz_decide, fz_must, fz_with_handlers; simpl.
+  unfold fz_spawn_requires, fz_chg_requires, fz_chg_prematch.
+  rewrite (fz_existsb_perm _ _ _ _ Hs), (fz_existsb_perm _ (fun h => ch_reqfin h && ch_prematch h) _ _ Hc), (fz_existsb_perm _ ch_prematch _ _ Hc).
+  reflexivity.
+Qed.
+
+Lemma fz_requires_order_independent : forall sp sp' ch ch', Permutation sp sp' -> Permutation ch ch' ->
+  fz_spawn_requires sp = fz_spawn_requires sp' /\ fz_chg_requires ch = fz_chg_requires ch' /\ fz_chg_prematch ch = fz_chg_prematch ch'.
+Proof.
+  intros sp sp' ch ch' Hs Hc. unfold fz_spawn_requires, fz_chg_requires, fz_chg_prematch.
+  rewrite (fz_existsb_perm _ _ _ _ Hs), (fz_existsb_perm _ (fun h => ch_reqfin h && ch_prematch h) _ _ Hc), (fz_existsb_perm _ ch_prematch _ _ Hc). auto.
+Qed.
+
+(* registering more handlers (optional deletion handlers included) never turns "required" into "not required" *)
+Lemma fz_requires_monotone : forall sp sp' ch ch', incl sp sp' -> incl ch ch' ->
+  (fz_spawn_requires sp = true -> fz_spawn_requires sp' = true) /\ (fz_chg_requires ch = true -> fz_chg_requires ch' = true).
+Proof. intros sp sp' ch ch' Hs Hc. split; apply fz_existsb_incl; assumption. Qed.
+
+(* non-vacuity: an optional deletion handler registered before a mandatory one, both matching: required, in both orders *)
+Definition fz_ex_opt : fz_ch := {| ch_reqfin := false; ch_prematch := true |}.
+Example fz_ex_optional_first : fz_chg_requires [fz_ex_opt; fz_ex_del] = true /\ fz_chg_requires [fz_ex_del; fz_ex_opt] = true /\
+  o_fns (fz_decide (fz_ex_atoms [] [fz_ex_opt; fz_ex_del] false false [] [])) = [FBlock] /\
+  o_fns (fz_decide (fz_ex_atoms [] [fz_ex_opt; fz_ex_del] true false [] [])) = [].
+Proof. repeat split; reflexivity. Qed.
